@@ -1549,6 +1549,13 @@ def run_c20(ctx: fw.Ctx) -> None:
                     cases.append(" ".join(parts2))
     eval_lex(st2, cases, positions=False)
     st2.exhaustive = True
+    st_c = ctx.stream("comment texts with characters that only Python's str methods take for line ends or blanks (FF VT FS GS RS NEL LS PS NBSP U+3000 NUL CR-free), short and long, followed by code")
+    ccases = []
+    for ch in ["\x0c", "\x0b", "\x1c", "\x1d", "\x1e", "\x85", "\u2028", "\u2029", "\xa0", "\u3000", "\x00", "\t", "\x7f"]:
+        ccases += [f"x = 1 --page{ch}break here\ny = 2", f"--{ch}\nx = 1", f"-- a{ch}\nreturn x", f"--[[ a{ch}b ]] x = 1", f"--[==[ l1{ch}\n{ch}l2 ]==]\nx = 1",
+                   f"f(a, -- c{ch}d\n b)", f"x = 1 -- last{ch}line"]
+    eval_lex(st_c, ccases, positions=False)
+    st_c.exhaustive = True
     st_s = ctx.stream("comment-like text inside string literals (a token must not be swallowed by a comment), next to real comments")
     lits = ['"--"', "'-- c'", '"--[[ c ]]"', "[[ -- c ]]", "[==[ --[[ c ]] ]==]", '"a\\z   --[[b]]c"', '"a\\z --b"', "'x\\z\n  -- q\n  r'", '"\\z--[==[" .. "]==]"',
             '"a" --[[ real ]] .. "--not"', "'\\z' -- real\n"]
